@@ -197,8 +197,12 @@ def make_real(kind, path, variant=0):
         with contextlib.redirect_stdout(io.StringIO()), contextlib.redirect_stderr(io.StringIO()):
             torch.jit.save(torch.jit.script(M()), path)
     elif kind == "legacy_tar":
+        # the documented layout, and the same four entries in another order / with further members
+        names = (("sys_info", "pickle", "storages", "tensors"), ("tensors", "storages", "pickle", "sys_info"),
+                 ("sys_info", "pickle", "README", "storages", "notes/extra.txt", "tensors"),
+                 ("pickle", "sys_info", "tensors", "storages", "trailer"))[variant % 4]  # fmt: skip
         with tarfile.open(path, mode="w:") as t:
-            for name in ("sys_info", "pickle", "storages", "tensors"):
+            for name in names:
                 body = pickle.dumps({"name": name, "v": variant})
                 info = tarfile.TarInfo(name)
                 info.size = len(body)
@@ -224,6 +228,12 @@ def make_real(kind, path, variant=0):
 
 
 REAL_KINDS = ("zip", "legacy", "jit", "legacy_tar", "mar", "random_zip", "pickle", "garbage", "empty")
+# rows of the documented table (README "PyTorch polyglots") that are not about zip members
+DOCUMENTED = {"legacy_tar": "PyTorch v0.1.1", "legacy": "PyTorch v0.1.10", "jit": "TorchScript v1.4",
+              "zip": "PyTorch v1.3"}  # fmt: skip
+DOCUMENTED_WHAT = {"legacy_tar": "tar file with sys_info, pickle, storages and tensors",
+                   "legacy": "file of stacked pickles (torch.save, legacy serialisation)",
+                   "jit": "torch.jit.save archive", "zip": "torch.save archive"}  # fmt: skip
 # formats each polyglot construction combines
 COMBINES = (
     ({"PyTorch model archive format", "PyTorch v0.1.10"}, None),
@@ -433,13 +443,17 @@ def run_shard(spec, seed):
             res.exhaustive = True
             res.extra["synthetic_files"] = n
         elif spec["kind"] == "real":
-            for i, (kind, variant) in enumerate(itertools.product(REAL_KINDS, range(3))):
+            for i, (kind, variant) in enumerate(itertools.product(REAL_KINDS, range(4))):
                 if i % spec["nparts"] != spec["part"]:
                     continue
                 p = os.path.join(scratch.path, "real.bin")
                 make_real(kind, p, variant)
                 m = check_identification(p)
                 acc = torch_accepts(p)
+                want = DOCUMENTED.get(kind)
+                if m is None and want and want not in quiet_identify(p):
+                    m = (f"a {DOCUMENTED_WHAT[kind]} is the documented shape of {want!r} but is identified as "
+                         f"{quiet_identify(p)}")  # fmt: skip
                 if m is None and acc and "PyTorch v1.3" not in quiet_identify(p):
                     m = "torch.load accepts the file but 'PyTorch v1.3' is not reported"
                 case = {"op": "real", "kind": kind, "variant": variant}
